@@ -1,1 +1,53 @@
-(* Props/C08.v -- stub, to be filled in *)
+(* Props/C08.v -- iterative solvers: reported success means solved.  Property theorems only:
+   Theorem / exact lemma / Check (pins the statement) / Print Assumptions.
+   [run mulA mulAT rows cols sv b x0 n tol] is the Gallina model of
+   solve_cg / solve_bicg (itol) / solve_bicgstab / solve_qmr (coq/Model/Iter.v) on a matrix given by
+   its two products; it returns (Result, final x, ghost) or a panic. *)
+From Coq Require Import List Arith ZArith Floats.
+From OV Require Import Base.Panic Base.Arith Model.Vector Model.Matrix Model.Sparse Model.Iter Inst.FloatInst Proofs.Iter.
+Import ListNotations.
+
+(* ---- any arithmetic (floats included), any products, any sizes ---- *)
+
+Theorem ok_le_budget : forall (A : SArith) (mulA mulAT : list (T (SA A)) -> res (list (T (SA A)))) rows cols
+    sv b x0 n tol k x g,
+  run mulA mulAT rows cols sv b x0 n tol = Ok (IOk k, x, g) -> k <= n.
+Proof. intros A mulA mulAT rows cols sv b x0 n tol k x g H. exact (proj1 (run_ok_inv mulA mulAT rows cols sv b x0 n tol k x g H)). Qed.
+Check ok_le_budget : forall (A : SArith) (mulA mulAT : list (T (SA A)) -> res (list (T (SA A)))) rows cols
+    sv b x0 n tol k x g,
+  run mulA mulAT rows cols sv b x0 n tol = Ok (IOk k, x, g) -> k <= n.
+Print Assumptions ok_le_budget.
+
+Theorem zero_budget_untouched : forall (A : SArith) (mulA mulAT : list (T (SA A)) -> res (list (T (SA A)))) rows cols
+    sv b x0 tol o x g,
+  run mulA mulAT rows cols sv b x0 0 tol = Ok (o, x, g) -> x = x0.
+Proof. intros A mulA mulAT rows cols sv b x0 tol o x g H. exact (run_zero_budget mulA mulAT rows cols sv b x0 tol o x g H). Qed.
+Check zero_budget_untouched : forall (A : SArith) (mulA mulAT : list (T (SA A)) -> res (list (T (SA A)))) rows cols
+    sv b x0 tol o x g,
+  run mulA mulAT rows cols sv b x0 0 tol = Ok (o, x, g) -> x = x0.
+Print Assumptions zero_budget_untouched.
+
+(* [passed b tol g]: norm2 (g_t g) / (||b||, 0 replaced by 1) evaluates to a value resid with
+   resid <= tol (or resid < tol), g_t g being the vector the last convergence test looked at *)
+Theorem ok_passed_test : forall (A : SArith) (mulA mulAT : list (T (SA A)) -> res (list (T (SA A)))) rows cols
+    sv b x0 n tol k x g,
+  run mulA mulAT rows cols sv b x0 n tol = Ok (IOk k, x, g) -> passed b tol g.
+Proof. intros A mulA mulAT rows cols sv b x0 n tol k x g H. exact (proj2 (run_ok_inv mulA mulAT rows cols sv b x0 n tol k x g H)). Qed.
+Check ok_passed_test : forall (A : SArith) (mulA mulAT : list (T (SA A)) -> res (list (T (SA A)))) rows cols
+    sv b x0 n tol k x g,
+  run mulA mulAT rows cols sv b x0 n tol = Ok (IOk k, x, g) -> passed b tol g.
+Print Assumptions ok_passed_test.
+
+(* non-vacuity: the float instance on the CSC matrix [[4,1],[1,3]], b = (1,2), x0 = (2,1), tol 2^-40 answers
+   Ok 2 with CG (budget 10), and answers (Err _, x0 untouched) with budget 0 *)
+Definition ex_s : sparse AF := @mkS AF 2 2 4 [4; 1; 1; 3]%float [0; 1; 0; 1] [0; 2; 4].
+Definition ex_tol : float := Z.ldexp 1%float (-40)%Z.
+Example ok_le_budget_nonvacuous : exists x g,
+  @run SAF (sp_mul ex_s) (sp_tmul ex_s) 2 2 CG [1; 2]%float [2; 1]%float 10 ex_tol = Ok (IOk 2, x, g).
+Proof. apply (@ok_k_witness SAF). vm_compute. reflexivity. Qed.
+Example ok_passed_test_nonvacuous : exists x g,
+  @run SAF (sp_mul ex_s) (sp_tmul ex_s) 2 2 QMR [1; 2]%float [2; 1]%float 10 ex_tol = Ok (IOk 2, x, g).
+Proof. apply (@ok_k_witness SAF). vm_compute. reflexivity. Qed.
+Example zero_budget_untouched_nonvacuous : exists r g,
+  @run SAF (sp_mul ex_s) (sp_tmul ex_s) 2 2 BiCGSTAB [1; 2]%float [2; 1]%float 0 ex_tol = Ok (r, [2; 1]%float, g).
+Proof. apply (@out_x_witness SAF). vm_compute. reflexivity. Qed.
